@@ -144,7 +144,7 @@ class QuickSampler:
                 len(self.input_state), self.input_state.n_photons
             )
             if not self.photon_counting:
-                out_states = [s for s in out_states if max(s) <= 1]
+                out_states = [s for s in out_states if max(s, default=0) <= 1]
             out_states = [
                 s for s in out_states if self.post_select.validate(State(s))
             ]
